@@ -98,7 +98,8 @@ def _nobs(ndim, which):
     raise KeyError(which)
 
 
-def _op_block(sizes, newsizes, ndim, doms, dks, hows, offsets='all', wopts=(None,)):
+def _op_block(sizes, newsizes, ndim, doms, dks, hows, offsets='all', wopts=(None,),
+              ran_dtype=None):
     cfgs = []
     for shape in itertools.product(sizes, repeat=ndim):
         for newshp in itertools.product(newsizes, repeat=ndim):
@@ -159,6 +160,9 @@ def _op_block(sizes, newsizes, ndim, doms, dks, hows, offsets='all', wopts=(None
                                 if form == 'scalar':
                                     c['offset_form'] = 'scalar'
                                 cfgs.append(c)
+    if ran_dtype:
+        for c in cfgs:
+            c['ran_dtype'] = ran_dtype
     cfgs.sort(key=lambda c: (sum(c['shape']) + sum(c['newshp'])))
     return cfgs
 
@@ -200,6 +204,13 @@ def configs(tier):
             seen.add(key)
             uniq.append(c)
     cfgs = uniq
+    if not th:
+        cfgs += _arrx_block(range(0, 5), range(0, 8), 1, XPAIRS)
+        cfgs += _arrx_block([2, 3], range(1, 5), 2, XPAIRS_KEY)
+    else:
+        cfgs += _arrx_block(range(0, 7), range(0, 13), 1, XPAIRS)
+        cfgs += _arrx_block([1, 2, 3], range(1, 6), 2, XPAIRS)
+        cfgs += _arrx_block([2, 3], range(1, 5), 3, XPAIRS_KEY)
 
     d_f64 = {'nob': 'F', 'dtype': 'float64'}
     d_nob = {'nob': 'T', 'dtype': 'float64'}
@@ -216,6 +227,8 @@ def configs(tier):
         ops += _op_block([2, 3], range(1, 5), 2, [d_f64], [None], ['ran_shp', 'range'])
         ops += _op_block([2, 3], range(1, 5), 2, [d_nob, d_nu], [None, 'T'], ['ran_shp'],
                          offsets='default')
+        ops += _op_block(range(1, 5), range(1, 8), 1, [d_f64], [None], ['ran_shp'],
+                         ran_dtype='float32')
     else:
         ops += _op_block(range(1, 6), range(1, 10), 1,
                          [d_f64, d_nob, d_l, d_c, d_f32, d_w],
@@ -225,6 +238,10 @@ def configs(tier):
                          [None, 'T', 'LR', 'RL'], ['ran_shp', 'range'], wopts=(None, 3.0))
         ops += _op_block([1, 2, 3], range(1, 6), 2, [d_nu, d_c, d_w], [None], ['ran_shp'])
         ops += _op_block([2], [1, 2, 3], 3, [d_f64], [None], ['ran_shp', 'range'])
+        ops += _op_block(range(1, 6), range(1, 10), 1, [d_f64], [None], ['ran_shp'],
+                         ran_dtype='float32')
+        ops += _op_block([2, 3], range(1, 5), 2, [d_f64], [None], ['ran_shp'],
+                         ran_dtype='float32')
     cfgs += ops
     for name in REJ:
         cfgs.append({'kind': 'rej', 'name': name})
@@ -321,6 +338,35 @@ def _pad_consts(dt, mode, ndim, thorough_like):
     return [0, 1.5]
 
 
+def _arr_offsets(shape, newshp, var):
+    """[(offset, on_unchanged_axis?)]: every offset keeping the block inside and, for the base
+    variant, the same offsets with NON-ZERO entries on the axes that keep their size.
+
+    ``offset`` "specifies how many entries are added to/removed from the left side"; in an
+    axis of unchanged size nothing is added or removed ("where newshp > arr.shape padding is
+    applied, where newshp < arr.shape the array is cropped"), and a shift is explicitly not
+    what resizing does (resizing_ops.rst: "the mixed case ... constant index shift ... is not
+    considered here").  So the entry carried there -- e.g. by one integer given for all axes --
+    must not influence the result.
+    """
+    base = R.all_offsets(shape, newshp)
+    out = [(o, False) for o in base]
+    same = [i for i, (n, m) in enumerate(zip(shape, newshp)) if n == m and n >= 1]
+    if var != BASE or not same:
+        return out
+    fills = [lambda n: 1, lambda n: n - 1]
+    if len(shape) <= 2:
+        fills.append(lambda n: 2)
+    seen = set(base)
+    for o in base:
+        for f in fills:
+            t = tuple(f(shape[i]) if i in same else o[i] for i in range(len(shape)))
+            if t not in seen:
+                seen.add(t)
+                out.append((t, True))
+    return out
+
+
 def _call_resize(flat, shape, newshp, off, mode, c, direction, var, dt, offset_none=False):
     """One execution of the real ``resize_array``; returns (status, value, problems)."""
     a = _mk_input(flat, shape, dt, var['arr'])
@@ -328,7 +374,11 @@ def _call_resize(flat, shape, newshp, off, mode, c, direction, var, dt, offset_n
     out, backing, mask = _mk_out(tuple(newshp), dt, var['out'])
     probs = []
     try:
-        res = NU.resize_array(a, newshp, offset=None if offset_none else list(off),
+        if offset_none == 'scalar':
+            offarg = int(off[0])
+        else:
+            offarg = None if offset_none else list(off)
+        res = NU.resize_array(a, newshp, offset=offarg,
                               pad_mode=mode, pad_const=c, direction=direction, out=out)
     except Exception as e:      # judged by the caller
         return 'exc', e, probs
@@ -368,10 +418,13 @@ def _run_arr(cfg):
     def report(site, sym, det):
         first.setdefault((site, sym), det)
 
-    for off in R.all_offsets(shape, newshp):
+    for off, on_same in _arr_offsets(shape, newshp, var):
+        scalar_ok = on_same and ndim > 1 and len(set(off)) == 1
         for mode in MODES:
             for direction in DIRS:
                 site = _vsite(mode, direction, var)
+                if on_same:
+                    site = site[:-1] + ';non-zero offset on unchanged axis]'
                 if direction == 'forward':
                     why = R.why_inadmissible(shape, newshp, off, mode)
                 else:       # transpose of the forward map  newshp -> shape  with this offset
@@ -428,7 +481,8 @@ def _run_arr(cfg):
                     for r in range(len(X)):
                         st, val, probs = _call_resize(
                             X[r], shape, newshp, off, mode, c, direction, var, dt,
-                            offset_none=(r == 1 and not any(off)))
+                            offset_none=('scalar' if scalar_ok and r == 0 else
+                                         (r == 1 and not any(off))))
                         evals += 1
                         for sym, det in probs:
                             report(site, sym, head + ': ' + det)
@@ -471,6 +525,204 @@ def _run_arr(cfg):
                                                    'ok' if ok_all else 'bad'))
     viol = [{'site': s, 'symptom': y, 'detail': d} for (s, y), d in sorted(first.items())]
     return {'evals': evals, 'viol': viol, 'sig': sorted(sigs) or ['arr:none'],
+            'skipped': skipped, 'trivial': evals == 0}
+
+
+# ------------------------------------------------------------------------------------------
+# kind 'arrx': narrow / unsigned / mixed (input dtype, out dtype) pairs with an EXACT integer
+# reference (Python integers) and values chosen so that arithmetic in a too narrow or a
+# floating intermediate type is visible
+
+XPAIRS = [('uint64', None), ('int8', 'int64'), ('float16', 'float64'), ('uint8', None),
+          ('int8', None), ('int8', 'float64'), ('uint8', 'int64'), ('uint8', 'float64'),
+          ('int64', None), ('float16', None), ('float32', 'float64'), ('int64', 'float64')]
+XPAIRS_KEY = XPAIRS[:4]
+_FLIMIT = {'float16': 2 ** 11, 'float32': 2 ** 24, 'float64': 2 ** 53}
+
+
+def _arrx_block(sizes, newsizes, ndim, pairs):
+    cfgs = []
+    sp = []
+    for shape in itertools.product(sizes, repeat=ndim):
+        for newshp in itertools.product(newsizes, repeat=ndim):
+            sp.append((sum(shape) + sum(newshp), shape, newshp))
+    sp.sort()
+    for idt, odt in pairs:
+        for _, shape, newshp in sp:
+            cfgs.append({'kind': 'arrx', 'shape': list(shape), 'newshp': list(newshp),
+                         'idt': idt, 'odt': odt})
+    return cfgs
+
+
+def _xrows(shape, idt):
+    """Input rows as lists of Python ints, all exactly representable in ``idt``."""
+    n = int(np.prod(shape))
+    unsigned = np.dtype(idt).kind == 'u'
+    k = list(range(n))
+    gen = [((7 * i * i + 3 * i) % 11) - (0 if unsigned else 5) for i in k]
+    rows = [('generic', gen), ('zero', [0] * n)]
+    for i in k:
+        rows.append(('e_%d' % i, [1 if j == i else 0 for j in k]))
+    # V-shaped ramp: increases linearly (slope 1..3 per axis) towards every edge, so the order1
+    # continuation stays a small distance above ``base`` -- exact in integer arithmetic
+    base = {'int8': 20, 'uint8': 50, 'uint64': 2 ** 60, 'int64': 2 ** 60, 'float16': 100,
+            'float32': 2 ** 20}[idt]
+    ramp = []
+    for idx in itertools.product(*[range(s) for s in shape]):
+        ramp.append(base + sum((1 + ax % 3) * abs(i - (shape[ax] - 1) // 2)
+                               for ax, i in enumerate(idx)))
+    rows.append(('ramp', ramp))
+    # large, nearly flat: sums of a few entries leave the narrow type / lose low bits in float64
+    if idt == 'float32':
+        flat = [2 ** 24 if i % 2 == 0 else 1 for i in k]
+    elif idt == 'float16':
+        flat = [60000 + 32 * (i % 2) for i in k]
+    else:
+        fb = {'int8': 100, 'uint8': 200, 'uint64': 2 ** 63, 'int64': 2 ** 62}[idt]
+        flat = [fb + i % 3 for i in k]
+    rows.append(('flat', flat))
+    return rows
+
+
+def _representable(vals, dt):
+    dt = np.dtype(dt)
+    if dt.kind in 'iu':
+        info = np.iinfo(dt)
+        return all(info.min <= v <= info.max for v in vals)
+    for v in vals:
+        try:
+            f = dt.type(v)
+            if not np.isfinite(f) or int(f) != v:
+                return False
+        except (OverflowError, ValueError):
+            return False
+    return True
+
+
+def _exact_list(a):
+    """Python ints of an array, or None if an entry is not an integer value."""
+    out = []
+    for v in np.asarray(a).ravel().tolist():
+        if isinstance(v, float):
+            if not np.isfinite(v) or not float(v).is_integer():
+                return None
+            v = int(v)
+        out.append(int(v))
+    return out
+
+
+def _run_arrx(cfg):
+    shape, newshp = tuple(cfg['shape']), tuple(cfg['newshp'])
+    idt = np.dtype(cfg['idt'])
+    odt = np.dtype(cfg['odt']) if cfg['odt'] else None
+    res_dt = odt if odt is not None else idt     # the type the result is held (and computed) in
+    ndim = len(shape)
+    pattern = ''.join('+' if m > n else '-' if m < n else '=' for n, m in zip(shape, newshp))
+    rows = _xrows(shape, cfg['idt'])
+    first = {}
+    sigs = set()
+    evals = 0
+    skipped = 0
+    tag = ';dtype=%s%s' % (idt.name, ';out=%s' % odt.name if odt is not None else '')
+
+    def report(site, sym, det):
+        first.setdefault((site, sym), det)
+
+    for off in R.all_offsets(shape, newshp):
+        for mode in MODES:
+            for direction in DIRS:
+                site = 'resize_array[%s,%s%s]' % (mode, direction, tag)
+                if direction == 'forward':
+                    why = R.why_inadmissible(shape, newshp, off, mode)
+                else:
+                    why = R.why_inadmissible(newshp, shape, off, mode)
+                for c in ([0, 2] if mode == 'constant' and direction == 'forward' else [0]):
+                    head = ('shape=%s newshp=%s offset=%s pad_mode=%s pad_const=%s direction=%s '
+                            'input dtype=%s out=%s' % (list(shape), list(newshp), list(off), mode,
+                                                        c, direction, idt.name,
+                                                        'absent' if odt is None else
+                                                        'given, dtype ' + odt.name))
+
+                    def call(vals):
+                        a = np.array(vals, dtype=object).astype(idt).reshape(shape)
+                        keep = a.copy()
+                        out = None
+                        if odt is not None:
+                            out = np.full(newshp, _sentinel(odt), dtype=odt)
+                        try:
+                            res = NU.resize_array(a, newshp, offset=list(off), pad_mode=mode,
+                                                  pad_const=c, direction=direction, out=out)
+                        except Exception as e:
+                            return 'exc', e
+                        if not _same(a, keep):
+                            report(site, 'input_modified', head)
+                        if out is not None and res is not out:
+                            report(site, 'result_is_not_out', head)
+                        if res.dtype != res_dt or res.shape != newshp:
+                            report(site, 'wrong_dtype_or_shape', head + ': %s %s'
+                                   % (res.dtype, res.shape))
+                        return 'ok', res
+
+                    if direction == 'adjoint' and mode == 'order1' and res_dt.kind == 'u' \
+                            and '-' in pattern:
+                        # the transpose of the constant-slope continuation has negative
+                        # entries: not an operation on unsigned numbers -- unspecified
+                        skipped += 1
+                        continue
+                    if why:
+                        st, val = call(rows[0][1])
+                        evals += 1
+                        if st == 'ok':
+                            report(site, 'inadmissible_padding_accepted', head + ': ' + why)
+                        elif not isinstance(val, ValueError):
+                            report(site, 'inadmissible_raises:' + type(val).__name__,
+                                   head + ': %s; %r' % (why, val))
+                        sigs.add('x%dd:%s:%s:%s:refused' % (ndim, pattern, mode, direction))
+                        continue
+                    if direction == 'forward':
+                        M, cmask = R.matrix(shape, newshp, off, mode)
+                    else:
+                        M, cmask = R.matrix(newshp, shape, off, mode)
+                        M = M.T
+                    Mo = M.astype(object)
+                    Ma = np.abs(M).astype(object)
+                    n_res = int(np.prod(newshp))
+                    cadd = ((c * cmask).astype(object) if direction == 'forward'
+                            else np.zeros(n_res, dtype=object))
+                    judged = 0
+                    for name, vals in rows:
+                        x = np.array(vals, dtype=object).reshape(-1)
+                        exp = list(Mo.dot(x) + cadd) if len(vals) else [int(v) for v in cadd]
+                        ok = _representable(exp, res_dt)
+                        if ok and res_dt.kind == 'f':
+                            # every partial sum must be exact in the floating type as well
+                            bound = list(Ma.dot(np.abs(x)) + cadd) if len(vals) else [abs(c)]
+                            ok = all(b <= _FLIMIT[res_dt.name] for b in bound)
+                        if not ok:
+                            # exact result (or an intermediate sum) not representable in the
+                            # result type: wrap-around / rounding behaviour is not specified
+                            skipped += 1
+                            continue
+                        st, val = call(vals)
+                        evals += 1
+                        judged += 1
+                        if st == 'exc':
+                            report(site, 'raises:' + type(val).__name__,
+                                   head + ' input(%s)=%s: %r' % (name, vals, val))
+                            break
+                        got = _exact_list(val)
+                        if got != [int(v) for v in exp]:
+                            sym = ('differs_from_reference' if direction == 'forward'
+                                   else 'adjoint_not_transpose')
+                            report(site, sym, head + ' input(%s)=%s expected=%s got=%s (exact '
+                                   'integer reference, representable in %s)'
+                                   % (name, vals, [int(v) for v in exp],
+                                      np.asarray(val).ravel().tolist(), res_dt.name))
+                            break
+                    sigs.add('x%dd:%s:%s:%s:%s' % (ndim, pattern, mode, direction,
+                                                    'judged' if judged else 'unjudged'))
+    viol = [{'site': s, 'symptom': y, 'detail': d} for (s, y), d in sorted(first.items())]
+    return {'evals': evals, 'viol': viol, 'sig': sorted(sigs) or ['arrx:none'],
             'skipped': skipped, 'trivial': evals == 0}
 
 
@@ -639,6 +891,8 @@ def _run_op(cfg):
                     dk['nodes_on_bdry'] = [tuple(map(bool, p)) for p in req_nob]
             if cfg.get('w') is not None:
                 dk.update(_weighting_arg(cfg['w'], newshp, _rdt(domspec['dtype'])))
+            if cfg.get('ran_dtype'):
+                dk['dtype'] = cfg['ran_dtype']      # "passed to the uniform_discr constructor"
             if dk:
                 kw['discr_kwargs'] = dk
             if cfg['offset'] is not None:
@@ -686,7 +940,7 @@ def _run_op(cfg):
                 if tuple(ran.shape) != newshp or op.domain != dom:
                     report('ResizingOperator[%s,%s]' % (how, offtxt), 'range_shape_differs',
                            head + ': range.shape=%s' % (ran.shape,))
-                if ran.dtype != dom.dtype:
+                if ran.dtype != np.dtype(cfg.get('ran_dtype') or dom.dtype):
                     report('ResizingOperator[%s,%s]' % (how, offtxt), 'range_dtype_differs',
                            head + ': %s' % ran.dtype)
                 for ax in range(ndim):
@@ -823,6 +1077,11 @@ def _run_op(cfg):
                     if adj.adjoint is not op and adj.adjoint != op:
                         report(asite, 'adjoint_of_adjoint_not_self', head)
                     Y = _inputs(n_out, cplx)
+                    if cfg.get('ran_dtype') == 'float32' and n_out:
+                        # values whose folded sums (2**24 + 1, ...) exist in the domain's
+                        # float64 but not in the range's float32
+                        big = np.array([2.0 ** 24 if k % 2 == 0 else 1.0 for k in range(n_out)])
+                        Y = np.vstack([Y, big[None, :]])
                     if why:
                         evals += 1
                         try:
@@ -1000,8 +1259,12 @@ def _run_rej(cfg):
 def run(cfg):
     if cfg['kind'] == 'arr':
         return _run_arr(cfg)
+    if cfg['kind'] == 'arrx':
+        return _run_arrx(cfg)
     if cfg['kind'] == 'op':
         return _run_op(cfg)
+    if cfg['kind'] == 'hist':
+        return _run_hist(cfg)
     return _run_rej(cfg)
 
 
@@ -1017,7 +1280,8 @@ def trace_functions():
 def summarize(results):
     kinds = {}
     for cfg, res in results:
-        k = cfg['kind'] if cfg['kind'] != 'arr' else 'arr%dd' % len(cfg['shape'])
+        k = cfg['kind'] if cfg['kind'] not in ('arr', 'arrx') else \
+            '%s%dd' % (cfg['kind'], len(cfg['shape']))
         d = kinds.setdefault(k, {'states': 0, 'executions': 0})
         d['states'] += 1
         d['executions'] += res['evals']
